@@ -16,7 +16,7 @@ META = {
     "single-SNV screen, for every small read multiset with counts; non-trivial = n_SNV >= 2",
     "bound": {"quick": "sweep: P in {1,2,4,8} x n in {1..10,126..131,200,255..258,400} (int8 genotypes as the assembler passes them), all shuffle answers when P*n<=6; "
                        "breaks: all n<=9, breaks<n; fixed sites: n<=3 SNVs (matrix), <=2 SNVs x <=3 distinct reads x counts {1,3,9} (real screen)",
-              "thorough": "n<=4 SNVs matrices; breaks n<=11"},
+              "thorough": "n<=4 SNVs matrices; breaks n<=10"},
     "assumptions": ["thresholds > 0.5 only (below that two alleles of one SNV can both qualify and 'the correct allele' is undefined)",
                     "cases where a single-SNV posterior is within 1e-9 of the threshold are skipped (counted)"],
     "trusted_base": ["vmc/refmodel (single-SNV posterior)", "numba py_func == dispatcher source"],
@@ -45,7 +45,7 @@ def plan(tier, seed):
         jobs.append(("sweep", P, 3000 * P))
     jobs.append(("sweepjit", seed, 20000))
     jobs.append(("structural", seed, 2000))
-    nmax = 9 if tier == "quick" else 11
+    nmax = 9 if tier == "quick" else 10
     for n in range(1, nmax + 1):
         jobs.append(("breaks", n, 2 ** n * 10))
     for n in ((1, 2, 3) if tier == "quick" else (1, 2, 3, 4)):
@@ -205,7 +205,7 @@ def job_breaks(job):
             return tuple(map(tuple, iv.tolist()))
 
         got = set()
-        for o, iv in explore(run):
+        for o, iv in explore(run, limit=2000000):
             r.evaluations += 1
             r.states += 1
             r.transitions += len(o.log)
